@@ -1043,6 +1043,14 @@ static SpellTable make_spelling(Choice& ch0, uint64_t salt, const std::vector<in
         if (isrx(t.sp[j].kind) && t.sp[j].text[0] == t.sp[i].text[0]) clash = true;
         if (clash) t.sp[i] = menu[i][0];
     }
+    // C01/C02's programs: the custom name of a regex term is only a display name, so it may repeat the id of another term (keyword "number" next to a
+    // literal named "number"); rules must still bind every symbol to the term object that was written
+    if (getenv("EMIT_SAME_NAMES") && ch.chance(1, 2))
+    {
+        std::vector<size_t> named, plain;
+        for (size_t i = 0; i < 6; ++i) { if (t.sp[i].kind == 'r' || t.sp[i].kind == 'T') named.push_back(i); else if ((t.sp[i].kind == 'c' || t.sp[i].kind == 's' || t.sp[i].kind == 't') && t.sp[i].text[0] >= 0x20 && t.sp[i].text.find('\n') == std::string::npos) plain.push_back(i); }
+        if (!named.empty() && !plain.empty()) t.sp[named[ch.below(uint32_t(named.size()))]].name = t.sp[plain[ch.below(uint32_t(plain.size()))]].text;
+    }
     // C18's programs: display names of realistic length that share a long prefix (all terminals are custom terms there, named by these strings)
     if (getenv("EMIT_LONG_NAMES")) for (size_t i = 0; i < 6; ++i) t.sp[i].name = "string_literal_" + t.sp[i].name;
     for (int i = 0; i < 6; ++i) t.decl_order.push_back(i);
